@@ -317,6 +317,22 @@ class _Fold(ast.NodeTransformer):
         return node
 
 
+def _fold_binop(self, node):
+    """(a, b) + (c,) -> (a, b, c);  (x,) * 3 -> (x, x, x) for side-effect free x (small displays only)"""
+    self.generic_visit(node)
+    l, r = node.left, node.right
+    if isinstance(node.op, ast.Mult) and isinstance(l, (ast.Tuple, ast.List)) and isinstance(r, ast.Constant) and isinstance(r.value, int) and not isinstance(r.value, bool) \
+            and 0 <= r.value <= 8 and isinstance(l.ctx, ast.Load) and all(isinstance(e, ast.Constant) for e in l.elts):
+        return ast.copy_location(type(l)(elts=[copy.deepcopy(e) for _ in range(r.value) for e in l.elts], ctx=ast.Load()), node)
+    if isinstance(node.op, ast.Add) and isinstance(l, ast.Tuple) and isinstance(r, ast.Tuple) and isinstance(l.ctx, ast.Load) and isinstance(r.ctx, ast.Load) \
+            and not any(isinstance(e, ast.Starred) for e in l.elts + r.elts):
+        return ast.copy_location(ast.Tuple(elts=l.elts + r.elts, ctx=ast.Load()), node)
+    return node
+
+
+_Fold.visit_BinOp = _fold_binop
+
+
 class _ReCanon(ast.NodeTransformer):
     """re.compile(p, f).m(args) -> re.m(p, args, f)"""
 
